@@ -96,7 +96,13 @@ static bool pct_matches(const dvec& sorted, double p, double got, bool& exact_ru
     const long double fl   = std::floor(pos), ce = std::ceil(pos), rn = std::round(pos);
     const auto        li   = static_cast<int64_t>(fl), ri = static_cast<int64_t>(ce), ni = static_cast<int64_t>(rn);
     if (li >= 0 && ri < n && same(got, ref_at(sorted, li, ri))) return true;
-    if (std::fabs(static_cast<double>(pos - rn)) < 1e-9 && ni >= 0 && ni < n && same(got, ref_at(sorted, ni, ni))) return true;
+    if (std::fabs(static_cast<double>(pos - rn)) < 1e-9 && ni >= 0 && ni < n)
+    {
+        // the exact position is within 1e-9 of the integer ni: binary64 rounding may land on it or on either side
+        if (same(got, ref_at(sorted, ni, ni))) return true;
+        if (ni >= 1 && same(got, ref_at(sorted, ni - 1, ni))) return true;
+        if (ni + 1 < n && same(got, ref_at(sorted, ni, ni + 1))) return true;
+    }
     return false;
 }
 
@@ -502,8 +508,13 @@ struct gen_t
         }
         q.push_back(st.front() - 1.5);
         q.push_back(st.back() + 1.5);
-        q.push_back(1e300);
-        q.push_back(-1e300);
+        q.push_back(1e15);
+        q.push_back(-1e15);
+        if (rng.range(0, 7) == 0)
+        {
+            q.push_back(1e300);
+            q.push_back(-1e300);
+        }
         q.push_back(0.0);
         for (int i = 0; i < 3; ++i)
         {
@@ -684,7 +695,7 @@ int main(int argc, char** argv)
         std::printf("%s\n", why.empty() ? "OK" : ("FAIL " + why).c_str());
         return why.empty() ? 0 : 1;
     }
-    const long lists = mode == "thorough" ? 60000 : 2000;
+    const long lists = mode == "thorough" ? 100000 : 2000;
     gen_t      g(vh::env_seed() * 0x9E3779B97F4A7C15ULL + 20);
     for (long c = 0; c < lists; ++c)
     {
